@@ -279,6 +279,39 @@ def replay(ctx, files, cats, canary_every=5000, oneshot=False, keep=3000, timeou
     return s
 
 
+def run_tool(ctx, tool, files, cats, extra=(), canary_every=0, timeout=3600):
+    """Run another jmv sub-command (history, sched, ...) whose summary has the same shape as replay's."""
+    out = os.path.join(ctx.scratch, "%s.%d.json" % (tool, len(ctx.tlc_runs) + len(ctx.candidates)))
+    cmd = [ctx.jmv, tool, "-out", out] + (["-canary-every", str(canary_every)] if canary_every else []) + list(extra) + list(files)
+    try:
+        p = subprocess.run(cmd, capture_output=True, text=True, timeout=timeout)
+    except subprocess.TimeoutExpired:
+        raise Machinery("jmv %s timeout" % tool)
+    if p.returncode != 0 or not os.path.exists(out):
+        raise Machinery("jmv %s failed: %s" % (tool, p.stderr[-2000:]))
+    s = json.load(open(out))
+    ctx.traces += s.get("cases", 0)
+    ctx.evaluations += s.get("evaluations", 0)
+    ctx.nontrivial += s.get("distinct_nontrivial", 0)
+    ctx.canaries_in += s.get("canaries_injected", 0)
+    ctx.canaries_hit += s.get("canaries_caught", 0)
+    for x in s.get("samples") or []:
+        if len(ctx.samples) < 8:
+            ctx.samples.append(x)
+    ncand = 0
+    for v in s.get("violations") or []:
+        if v["cat"] in cats:
+            v["confirm"] = "tool"
+            v["tool"] = tool
+            v["tool_extra"] = list(extra)
+            ctx.candidates.append(v)
+            ncand += 1
+    ctx.log("jmv %s: %d cases / %d API calls: %d candidate(s) %s; canaries %d/%d" %
+            (tool, s.get("cases", 0), s.get("evaluations", 0), ncand, s.get("violation_counts"),
+             s.get("canaries_caught", 0), s.get("canaries_injected", 0)))
+    return s
+
+
 # --------------------------------------------------------------------------------------------
 # triage: confirmation in a fresh process, known findings, reporting
 
@@ -313,7 +346,27 @@ def confirm(ctx, cands):
     confirmed = []
     path = os.path.join(ctx.scratch, "confirm.ndjson")
     replayable = [v for v in cands if "src_cps" in v and v.get("confirm", "replay") == "replay"]
-    passthrough = [v for v in cands if v not in replayable]   # confirmed by their own stage
+    toolc = [v for v in cands if v.get("confirm") == "tool"]
+    passthrough = [v for v in cands if v not in replayable and v not in toolc]   # confirmed by their own stage
+    for tool in sorted({v["tool"] for v in toolc}):
+        vs = [v for v in toolc if v["tool"] == tool]
+        tpath = os.path.join(ctx.scratch, "confirm.%s.ndjson" % tool)
+        with open(tpath, "w") as f:
+            for v in vs:
+                if v.get("pools") is not None:
+                    f.write(json.dumps(v["pools"]) + "\n")
+                f.write(json.dumps(v["rec"]) + "\n")
+        tout = os.path.join(ctx.scratch, "confirm.%s.json" % tool)
+        p = subprocess.run([ctx.jmv, tool, "-out", tout] + vs[0].get("tool_extra", []) + [tpath], capture_output=True, text=True, timeout=900)
+        if p.returncode != 0:
+            raise Machinery("confirmation run of jmv %s failed: %s" % (tool, p.stderr[-1500:]))
+        again = {(w["id"], w["cat"]) for w in json.load(open(tout)).get("violations") or []}
+        for v in vs:
+            if (v["id"], v["cat"]) in again:
+                confirmed.append(v)
+            else:
+                ctx.notes.append("candidate did not reproduce in a fresh process: %s %s id=%s" % (tool, v["cat"], v["id"]))
+                ctx.unreproduced = getattr(ctx, "unreproduced", 0) + 1
     with open(path, "w") as f:
         for i, v in enumerate(replayable):
             docs = [v["doc"]] if v.get("doc") is not None else [["null"]]
@@ -364,7 +417,7 @@ def report(ctx, confirmed):
     nviol = 0
     for v in fresh:
         # one line per distinct failing expression (family, case id), whatever the spelling / document
-        sig = json.dumps([v.get("cat"), v.get("fam"), v.get("id"), v.get("tag")] if v.get("fam") else
+        sig = json.dumps([v.get("cat"), v.get("fam"), v.get("id"), v.get("tag")] if (v.get("fam") or v.get("tool")) else
                          [v.get("cat"), v.get("src"), v.get("doc"), v.get("tag")], sort_keys=True)
         key = hashlib.sha1(sig.encode()).hexdigest()[:12]
         if key in seen:
@@ -376,6 +429,8 @@ def report(ctx, confirmed):
         path = os.path.join(ROOT, "replays", "%s-%s.json" % (ctx.prop, key))
         with open(path, "w") as f:
             json.dump({"property": ctx.prop, "violation": v, "tier": ctx.tier, "seed": ctx.seed}, f, indent=1)
+        if v.get("tool"):
+            v = dict(v, rec="(see replay file)", pools="(see replay file)")
         what = "%s expr=%r observed=%s" % (v.get("cat"), v.get("src"), (v.get("observed") or "")[:160])
         print("VIOLATION property=%s replay=%s  # %s" % (ctx.prop, path, what), flush=True)
     if nviol > 15:
